@@ -118,6 +118,7 @@ class SimSocket(object):
         w = self.w
         r = w.conn_take('net', 'ok')
         w.rec({"k": "sock", "op": "connect", "sock": self.st.id, "res": r, "host": str(sa[0]), "port": int(sa[1])})
+        w.during('connect')
         if r == 'refused':
             raise OSError(111, 'Connection refused (sim)')
         if r == 'boom':
@@ -209,6 +210,7 @@ class SimSocket(object):
     def recv(self, n):
         """Blocking read (only used by the proxy phase)."""
         w = self.w
+        w.during('proxy_recv')
         if self.st.leftover:
             d, self.st.leftover = self.st.leftover[:n], self.st.leftover[n:]
             w.pconsumed += len(d)
@@ -452,7 +454,10 @@ def rat(x):
 # the world
 # ----------------------------------------------------------------------------------------------
 class World(object):
+    during_counts = None
+
     def __init__(self, sc):
+        self.during_counts = {}
         self.sc = sc
         self.tick = sc.get('tick', 1.0)
         self.ticks = 0
@@ -680,8 +685,22 @@ class World(object):
             self.sitem += 1
         return s
 
+    def during(self, point):
+        """Application calls made by ANOTHER thread while the loop thread is blocked in a system call (scenario key 'during':
+        {"<point>#<k>": [calls]}, points: connect, proxy_recv, wait).  The loop thread holds no lock at these points, so running the
+        calls right here is one legal interleaving of the two threads."""
+        plan = self.sc.get('during')
+        if not plan:
+            return
+        k = self.during_counts.get(point, 0)
+        self.during_counts[point] = k + 1
+        for call in plan.get('%s#%d' % (point, k)) or []:
+            if getattr(self, 'ws', None) is not None:
+                do_call(self, self.ws, call, -1)
+
     def wait(self, fd, timeout):
         """One selector wait.  Returns readable?  Advances the virtual clock."""
+        self.during('wait')
         if self.watch_steps > self.sc.get('max_waits', 150):
             raise Watchdog('more than %d selector waits that delivered nothing' % self.sc.get('max_waits', 150))
         st = [s for s in self.socks if 100 + s.id == fd]
@@ -1014,6 +1033,7 @@ def _run_scenario(sc):
     elif ws_kwargs['proxies'] == 'env':
         ws_kwargs['proxies'] = None          # the mapping comes from HTTP_PROXY / HTTPS_PROXY of the scenario's 'env'
     ws = WS.WebSocket(sc.get('url', 'ws://example.com/'), **ws_kwargs)
+    world.ws = ws
     for h, v in sc.get('headers') or []:
         ws.add_header(h.encode('latin-1'), v.encode('latin-1'))
     Session = make_session_class(world, sc.get('selector', 'poll'))
